@@ -113,11 +113,13 @@ theorem C12_inside_never_refuses {boxes : List Box} {x : List Rat} (h : allIn bo
 /-! ## Discrete proposals propose integers, and (non-successive) never the current one -/
 
 /-- `NormalDiscrete`: the proposed values are integers by construction — the truncated
-    start plus `_floorceil` (or `round`, when successive) of the draw. -/
-theorem C12_discrete_integer {succ : List Bool} {x draws : List Rat} {ys : List Int}
-    (h : ndJump? succ x draws = some ys) :
-    List.Forall₂ (fun (sx : Bool × (Rat × Rat)) (y : Int) => y = truncZ sx.2.1 + dstep sx.1 sx.2.2)
-      (succ.zip (x.zip draws)) ys := by
+    start plus `_floorceil` (or `round`, when successive) of a draw the parameter accepts
+    (any draw when successive, otherwise the first non-zero one). -/
+theorem C12_discrete_integer {succ : List Bool} {x : List Rat} {fuel : Nat} {draws : List Rat}
+    {ys : List Int} (h : ndJump? succ x fuel draws = some ys) :
+    List.Forall₂ (fun (sx : Bool × Rat) (y : Int) =>
+        ∃ d : Rat, ndOk sx.1 d = true ∧ y = truncZ sx.2 + dstep sx.1 d)
+      (succ.zip x) ys := by
   unfold ndJump? ndJump at h
   split at h
   · rename_i ys' r hl
@@ -145,36 +147,27 @@ theorem C12_integer_step_near_draw (successive : Bool) (d : Rat) :
 theorem C12_nonsuccessive_moves {d : Rat} (h : d ≠ 0) : floorceil d ≠ 0 :=
   floorceil_ne_zero h
 
-/-- Jump level: with `successive = False` for a parameter and no generator value exactly
-    zero, the integer proposed for that parameter differs from the current one
-    (`int(fromx[p])`) — unbounded and bounded variant, any number of parameters. -/
-theorem C12_nonsuccessive_moves_jump {succ : List Bool} {x draws : List Rat} {ys : List Int}
-    (hd : ∀ d ∈ draws, d ≠ 0) (h : ndJump? succ x draws = some ys) :
+/-- Jump level: with `successive = False` for a parameter the integer proposed for it differs
+    from the current one (`int(fromx[p])`) — for EVERY stream of generator values, zeros
+    included (the code draws again on an exact zero), unbounded and bounded variant, any
+    number of parameters, any fuel. -/
+theorem C12_nonsuccessive_moves_jump {succ : List Bool} {x : List Rat} {fuel : Nat}
+    {draws : List Rat} {ys : List Int} (h : ndJump? succ x fuel draws = some ys) :
     List.Forall₂ (fun (sx : Bool × Rat) (y : Int) => sx.1 = false → y ≠ truncZ sx.2) (succ.zip x) ys := by
   unfold ndJump? ndJump at h
   split at h
   · rename_i ys' r hl
     simp only [Outcome.toOption, Option.some.injEq] at h
     subst h
-    exact ndLoop_moves hl hd
+    exact ndLoop_moves hl
   · simp [Outcome.toOption] at h
 
 theorem C12_nonsuccessive_moves_bounded {boxes : List DBox} {x : List Rat} {fuel : Nat}
-    {draws : List Rat} {ys : List Int} (hd : ∀ d ∈ draws, d ≠ 0)
-    (h : bdJump? boxes x fuel draws = some ys) :
+    {draws : List Rat} {ys : List Int} (h : bdJump? boxes x fuel draws = some ys) :
     List.Forall₂ (fun (bx : DBox × Rat) (y : Int) => bx.1.succ = false → y ≠ truncZ bx.2)
       (boxes.zip x) ys := by
   obtain ⟨_, r, hl⟩ := bdJump_ok_iff.mp h
-  exact bdLoop_moves hl hd
-
-/-- The hypothesis `d ≠ 0` cannot be dropped: a generator value of exactly `0.0` (which
-    numpy's ziggurat returns with probability 2⁻⁵² per draw) makes the non-successive
-    proposals propose the current integer.  Pinned behaviour of `_floorceil`; the real
-    code agrees (finding `discrete-zero-draw-proposes-current`). -/
-theorem C12_zero_draw_counterexample :
-    ndJump? [false] [3] [0] = some [3] ∧
-    bdJump? [{ lo := 0, hi := 5, succ := false }] [3] 10 [0] = some [3] := by
-  decide
+  exact bdLoop_moves hl
 
 /-! ## Angular proposals -/
 
@@ -223,42 +216,46 @@ theorem C12_pyMod_cast (a m : ℚ) :
 
 /-! ## Solid-angle proposals -/
 
-/-- The inverse cdf of `_new_point` over the reals: for a uniform `u ∈ [0, 1)` and any
-    concentration `κ > 0` the argument of `arccos` lies in `(−1, 1]`, so the polar angle is
-    defined.  Floats do NOT satisfy this (see `C12_vmf_arg_partial`). -/
-theorem C12_vmf_w_range {κ u : ℝ} (hκ : 0 < κ) (h0 : 0 ≤ u) (h1 : u < 1) :
-    -1 < vmfW κ u ∧ vmfW κ u ≤ 1 :=
+/-- The inverse cdf of `_new_point` over the reals, in the form the code now evaluates,
+    `w = 1 + log(1 + u·(e^{−2κ} − 1))/κ`: for every uniform `u ∈ [0, 1]` and concentration
+    `κ > 0` it lies in `[−1, 1]`, so the polar angle `arccos w` is defined. -/
+theorem C12_vmf_w_range {κ u : ℝ} (hκ : 0 < κ) (h0 : 0 ≤ u) (h1 : u ≤ 1) :
+    -1 ≤ vmfW κ u ∧ vmfW κ u ≤ 1 :=
   vmfW_range hκ h0 h1
 
-/-- Model level: the argument of the logarithm computed exactly from the float
-    `E = exp(κ)` is positive, at least `e` and at most `E` **provided** the stored normalisation is
-    consistent with it, `κ/(2π·norm) = E − e` for some `0 < e ≤ E` (`e` plays `exp(−κ)`:
-    `2·sinh κ = e^κ − e^−κ`).
-    What is missing for the real code: (1) the float subtraction `E − κ·cdf/(2π·norm)`
-    cancels — for κ ≳ 37 the term `e` is below one ulp of `E`, for `cdf → 1` the float
-    result is 0, a few ulps of garbage or negative, so `log` returns −∞/NaN or a value
-    outside `[−κ, κ]`; (2) `log(exp(κ))/κ` exceeds 1 by rounding for ≈20 % of κ at
-    `cdf ∈ {0, 2⁻⁵³}`; (3) for κ ≲ 1e-8, `exp(κ)` has no digits left for κ.  In the model
-    these are the explicit `nan "vmf-log"` / `nan "vmf-arccos"` outcomes, driven by the
-    recorded float values; the real code produces NaN there (findings
-    `vmf-inverse-cdf-log-nonpositive`, `vmf-inverse-cdf-arccos-out-of-range`). -/
-theorem C12_vmf_arg_partial {k : Consts} {c : SACfg} {E e cdf : Rat} (he : 0 < e) (hE : e ≤ E)
-    (hnorm : c.kappa / (2 * k.pi * c.norm) = E - e) (h0 : 0 ≤ cdf) (h1 : cdf < 1) :
-    0 < vmfArg k c E cdf ∧ e ≤ vmfArg k c E cdf ∧ vmfArg k c E cdf ≤ E := by
-  have : vmfArg k c E cdf = E - cdf * (E - e) := by
-    unfold vmfArg
-    rw [← hnorm]
-    ring
-  rw [this]
-  refine ⟨?_, ?_, ?_⟩ <;> nlinarith
+/-- The rewrite kept the law: the old expression `log(e^κ − κ·u/(2π·norm))/κ` with
+    `norm = κ/(4π sinh κ)` is the same real number. -/
+theorem C12_vmf_formula_agrees {κ u : ℝ} (hκ : 0 < κ) (h0 : 0 ≤ u) (h1 : u ≤ 1) :
+    vmfWOld κ u = vmfW κ u :=
+  vmfW_eq_old hκ h0 h1
+
+/-- `numpy.clip(·, −1, 1)`: whatever the float evaluation of `w` produced — any finite value
+    or an infinity — the value handed to `arccos` is in `[−1, 1]`, unconditionally (only a NaN
+    stays a NaN, and `clipXR` then returns no finite value). -/
+theorem C12_clip_range :
+    (∀ q : Rat, -1 ≤ clip1 q ∧ clip1 q ≤ 1) ∧
+    (∀ (x : XR) (w : Rat), clipXR x = .fin w → -1 ≤ w ∧ w ≤ 1) :=
+  ⟨clip1_range, fun _ _ h => clipXR_range h⟩
+
+/-- Model level: the argument of `log1p` computed exactly from the float `em = expm1(−2κ)`
+    is in `[−1, 0]`, the domain of `log1p`, whenever `em ∈ [−1, 0]` (true of numpy's `expm1` at
+    a negative argument) and `u ∈ [0, 1]`.  Not proved: that the float product `u·em` stays in
+    `[−1, 0]` (it does: rounding is monotone and −1, 0 are floats) and the accuracy of numpy's
+    `expm1`/`log1p`; if the recorded argument were below −1 the model yields the explicit
+    outcome `nan "vmf-log1p"`.  Rounding of `1 + L/κ` outside `[−1, 1]` is absorbed by the clip
+    (`C12_clip_range`). -/
+theorem C12_vmf_log1p_arg_partial {em u : Rat} (he : -1 ≤ em ∧ em ≤ 0) (h0 : 0 ≤ u) (h1 : u ≤ 1) :
+    -1 ≤ u * em ∧ u * em ≤ 0 := by
+  obtain ⟨h2, h3⟩ := he
+  constructor <;> nlinarith
 
 /-- `_rotmat(mu)` is orthogonal: the matrix built from the cosines and sines of two angles
     preserves the Euclidean norm of every vector, so the rotated draw stays on the unit
     sphere.  Over ℝ with the real `cos`/`sin`.
     Not proved for floats: there `cos² + sin² = 1` and the products hold up to a few ulps,
     so the third component can exceed 1 by an ulp (then `arccos` gives NaN; searched for on
-    the real code), and at the pole `mu = (0, 0, ±1)` the code divides 0/0 before any
-    cosine is taken (model: `nan "pole"`; finding `solid-angle-pole-start`). -/
+    the real code).  At a pole `mu = (0, 0, ±1)` the code takes γ = 0, whose cosine and sine
+    are exactly 1 and 0. -/
 theorem C12_rotation_keeps_unit_sphere (β γ x y z : ℝ) :
     (Real.cos β * Real.cos γ * x - Real.sin γ * y + Real.sin β * Real.cos γ * z) ^ 2
       + (Real.cos β * Real.sin γ * x + Real.cos γ * y + Real.sin β * Real.sin γ * z) ^ 2
@@ -351,10 +348,9 @@ theorem C12_spherical_ranges_model_partial (k : Consts) (c : SACfg) (a t : Rat)
     no numpy call produced a non-finite value, and that pair is `saFromColat` of the recorded
     `arctan2` and `arccos` values, the latter taken at an argument in `[−1, 1]`.  Hence, under
     the same hypotheses on numpy's ranges as above, every pair the model returns is a valid
-    azimuth/polar pair of the convention — whatever the start point (poles included: there
-    the model returns `nan "pole"`, not a pair), κ, the two uniforms and the other oracle
-    values.  Missing for the real code: as in `C12_spherical_ranges_model_partial`; and the
-    NaN outcomes themselves, which the real code does produce (findings F17, F21). -/
+    azimuth/polar pair of the convention — whatever the start point (poles included), κ, the
+    two uniforms and the other oracle values.  Missing for the real code: as in
+    `C12_spherical_ranges_model_partial`. -/
 theorem C12_solid_angle_jump_ranges_partial {k : Consts} {c : SACfg} {p t u1 u2 : Rat} {o : SAOracle}
     {phi theta dev : Rat} (hpi : 0 < k.pi) (hr : 0 < k.r2d)
     (hatan : ∀ a, o.atan2.val = .fin a → -k.pi ≤ a ∧ a ≤ k.pi)
@@ -369,26 +365,53 @@ theorem C12_solid_angle_jump_ranges_partial {k : Consts} {c : SACfg} {p t u1 u2 
   rw [← he] at this
   exact this
 
-/-- Pinned behaviour at the pole: when `sqrt(mu_x² + mu_y²)` is 0 the model (like the code,
-    which divides by it) yields no pair but the NaN outcome `pole` — given that numpy's
-    `arccos` of the resulting NaN is NaN.  A concrete oracle record of a start exactly at
-    the north pole (`sin θ = 0`), evaluated by the kernel; the real code returns a NaN
-    azimuth on such inputs (finding `solid-angle-pole-start`). -/
-theorem C12_pole_counterexample :
-    saJump ⟨3, 1/60, 60⟩ ⟨false, false, 1, 1/10⟩ 0 0 0 (1/2)
-      { sinT0 := ⟨.fin 0, .fin 0, .fin 0⟩, cosP0 := ⟨.fin 0, .fin 0, .fin 1⟩,
-        sinP0 := ⟨.fin 0, .fin 0, .fin 0⟩, cosT0 := ⟨.fin 0, .fin 0, .fin 1⟩,
-        expK := ⟨.fin 1, .fin 0, .fin 3⟩, logA := ⟨.fin (13/6), .fin 0, .fin (3/4)⟩,
-        acosW := ⟨.fin (3/4), .fin 0, .fin (7/10)⟩,
-        sinT1 := ⟨.fin (7/10), .fin 0, .fin (3/5)⟩, cosP1 := ⟨.fin 0, .fin 0, .fin 1⟩,
-        sinP1 := ⟨.fin 0, .fin 0, .fin 0⟩, cosT1 := ⟨.fin (7/10), .fin 0, .fin (4/5)⟩,
-        acosMz := ⟨.fin 1, .fin 0, .fin 0⟩, sqrtR := ⟨.fin 0, .fin 0, .fin 0⟩,
-        acosG := ⟨.nan, .fin 0, .nan⟩,
-        sinB := ⟨.fin 0, .fin 0, .fin 0⟩, sinG := ⟨.nan, .fin 0, .nan⟩,
-        cosB := ⟨.fin 0, .fin 0, .fin 1⟩, cosG := ⟨.nan, .fin 0, .nan⟩,
-        atan2 := ⟨.nan, .nan, .nan⟩, acosZ := ⟨.fin (4/5), .fin 0, .fin (3/5)⟩ }
-      = .nan "pole" 0 := by
-  decide +kernel
+/-- No NaN of the model's own making: if none of the numpy calls that can return NaN did so
+    (`log1p` and the `arccos` calls) and the oracle record fits the model (no `desync`, which
+    is what the correspondence checks on every run), the jump returns a pair, and the pair is
+    in range.  The code no longer has a NaN branch of its own: the division by `rxy` is made
+    only when `rxy > 0`, and the argument of the first `arccos` is clipped. -/
+theorem C12_no_numpy_nan_in_range_partial {k : Consts} {c : SACfg} {p t u1 u2 : Rat} {o : SAOracle}
+    (hpi : 0 < k.pi) (hr : 0 < k.r2d)
+    (hatan : ∀ a, o.atan2.val = .fin a → -k.pi ≤ a ∧ a ≤ k.pi)
+    (hacos : ∀ z v, o.acosZ.arg = .fin z → -1 ≤ z → z ≤ 1 → o.acosZ.val = .fin v → 0 ≤ v ∧ v ≤ k.pi)
+    (hfit : ∀ s, saJump k c p t u1 u2 o ≠ .desync s)
+    (hnan : o.log1p.val ≠ .nan ∧ o.acosW.val ≠ .nan ∧ o.acosMz.val ≠ .nan ∧
+      (∀ s, o.acosG = some s → s.val ≠ .nan) ∧ o.acosZ.val ≠ .nan) :
+    ∃ phi theta dev, saJump k c p t u1 u2 o = .ok phi theta dev ∧
+      0 ≤ phi ∧ phi ≤ 2 * k.pi * (if c.degs then k.r2d else 1) ∧
+      -(if c.radec then (if c.degs then 90 else k.pi / 2) else 0) ≤ theta ∧
+      theta ≤ k.pi * (if c.degs then k.r2d else 1)
+          - (if c.radec then (if c.degs then 90 else k.pi / 2) else 0) := by
+  cases hres : saJump k c p t u1 u2 o with
+  | ok phi theta dev =>
+    exact ⟨phi, theta, dev, rfl, C12_solid_angle_jump_ranges_partial hpi hr hatan hacos hres⟩
+  | nan site dev =>
+    exfalso
+    obtain ⟨h1, h2, h3, h4, h5⟩ := hnan
+    rcases saJump_nan hres with h | h | h | ⟨s, hs, h⟩ | h
+    · exact h1 h
+    · exact h2 h
+    · exact h3 h
+    · exact h4 s hs h
+    · exact h5 h
+  | desync s => exact absurd hres (hfit s)
+
+/-- A start exactly at a pole (the code finds `rxy = 0`, makes no `arccos(mu[0]/rxy)` call and
+    uses γ = 0) yields an in-range pair under the same hypotheses; nothing about the pole is
+    left that could produce a NaN azimuth. -/
+theorem C12_pole_start_in_range_partial {k : Consts} {c : SACfg} {p t u1 u2 : Rat} {o : SAOracle}
+    (hpi : 0 < k.pi) (hr : 0 < k.r2d) (hpole : o.acosG = none)
+    (hatan : ∀ a, o.atan2.val = .fin a → -k.pi ≤ a ∧ a ≤ k.pi)
+    (hacos : ∀ z v, o.acosZ.arg = .fin z → -1 ≤ z → z ≤ 1 → o.acosZ.val = .fin v → 0 ≤ v ∧ v ≤ k.pi)
+    (hfit : ∀ s, saJump k c p t u1 u2 o ≠ .desync s)
+    (hnan : o.log1p.val ≠ .nan ∧ o.acosW.val ≠ .nan ∧ o.acosMz.val ≠ .nan ∧ o.acosZ.val ≠ .nan) :
+    ∃ phi theta dev, saJump k c p t u1 u2 o = .ok phi theta dev ∧
+      0 ≤ phi ∧ phi ≤ 2 * k.pi * (if c.degs then k.r2d else 1) ∧
+      -(if c.radec then (if c.degs then 90 else k.pi / 2) else 0) ≤ theta ∧
+      theta ≤ k.pi * (if c.degs then k.r2d else 1)
+          - (if c.radec then (if c.degs then 90 else k.pi / 2) else 0) :=
+  C12_no_numpy_nan_in_range_partial hpi hr hatan hacos hfit
+    ⟨hnan.1, hnan.2.1, hnan.2.2.1, fun s hs => by simp [hpole] at hs, hnan.2.2.2⟩
 
 /-! ## Birth distributions propose where their own density is positive -/
 
@@ -396,10 +419,10 @@ theorem C12_pole_counterexample :
     the uniform density `1/(hi − lo)` is positive.  `NormalBirth`: the normal density is
     positive everywhere, in particular at `μ + σ·z`.  `LogNormalBirth`: `exp(m + s·z) > 0`
     and the log-normal density is positive at every positive point.
-    Not proved: float rounding of `lo + (hi−lo)·u` (can it exceed `hi` by an ulp?), underflow
-    of `exp` to 0 (model: the explicit `none` of `birthLogNormal`), and the degenerate
-    `std_log = sqrt(log(1 + (σ/μ)²)) = 0` for `σ/μ < 1.5e-8`; the search evaluates the real
-    `logpdf` at the real `birth`. -/
+    Not proved: float rounding of `lo + (hi−lo)·u` (can it exceed `hi` by an ulp?) and underflow
+    of `exp` to 0 (model: the explicit `none` of `birthLogNormal`); the log-width
+    `sqrt(log1p((σ/μ)²))` is a constructor constant, positive for every σ ≠ 0 now that `log1p` is
+    used; the search evaluates the real `logpdf` at the real `birth`. -/
 theorem C12_birth_support :
     (∀ (b : Box) (u : Rat), b.lo ≤ b.hi → 0 ≤ u → u < 1 →
         b.lo ≤ birthUniform b u ∧ birthUniform b u ≤ b.hi) ∧
@@ -433,7 +456,12 @@ example : bnJump? [⟨0, 1⟩] [1/2] 10 [2, 3, -1] = none := by decide +kernel
 -- bounds (-0.5, 4.2) become the integers -1..5; the float start 4.7 is truncated to 4;
 -- round(2.5) = 2 leaves the bounds, round(-2.5) = -2 lands
 example : bdJump? [⟨-1/2, 21/5, true⟩] [47/10] 5 [5/2, -5/2] = some [2] := by decide +kernel
-example : ndJump? [false, true] [3, 3] [-1/1000, 5/2] = some [2, 5] := by decide +kernel
+example : ndJump? [false, true] [3, 3] 5 [-1/1000, 5/2] = some [2, 5] := by decide +kernel
+-- draws of exactly zero are drawn again when successive jumps are off (3 draws used, then 1);
+-- with successive jumps a zero is a valid "stay"
+example : ndJump [false, true] [3, 3] 5 [0, 0, 1/2, 0, 7] = .ok [4, 3] [7] := by decide +kernel
+example : bdJump? [⟨0, 5, false⟩] [3] 10 [0, 0, -1/4] = some [2] := by decide +kernel
+example : bdJump? [⟨0, 5, true⟩] [3] 10 [0, 0, -1/4] = some [3] := by decide +kernel
 -- angular with h = 1, invf = 1/3, f = 3: the draw 2 is rejected, -1/2 wraps to 3/2
 example : angJump? ⟨1, 1/3, 3⟩ [6] 4 [2, -1/2] = some [9/2] := by decide +kernel
 example : pyMod (-1/10) 2 = 19/10 := by decide +kernel
@@ -442,32 +470,48 @@ example : beJump? [⟨0, 1⟩, ⟨-2, 3⟩] [1/2, 1] 4 [[1/2, 3 + 1/10000], [1/2
   decide +kernel
 example : (⟨-2, 3⟩ : Box).tol = 1/100000000 + 3/100000 := by decide +kernel
 -- hypotheses of the real-number theorems are satisfiable
-example : -1 < vmfW 10 (1/2) ∧ vmfW 10 (1/2) ≤ 1 := C12_vmf_w_range (by norm_num) (by norm_num) (by norm_num)
-example : ∃ (k : Consts) (c : SACfg) (E e cdf : Rat), 0 < e ∧ e ≤ E ∧
-    c.kappa / (2 * k.pi * c.norm) = E - e ∧ 0 ≤ cdf ∧ cdf < 1 :=
-  ⟨⟨3, 1/60, 60⟩, ⟨false, false, 6, 1/3⟩, 4, 1, 1/2, by decide +kernel, by decide +kernel, by decide +kernel, by decide +kernel, by decide +kernel⟩
+example : -1 ≤ vmfW 10 1 ∧ vmfW 10 1 ≤ 1 := C12_vmf_w_range (by norm_num) (by norm_num) (by norm_num)
+example : -1 ≤ (1/2 : Rat) * (-4/5) ∧ (1/2 : Rat) * (-4/5) ≤ 0 :=
+  C12_vmf_log1p_arg_partial ⟨by norm_num, by norm_num⟩ (by norm_num) (by norm_num)
+example : clip1 (1 + 1/1000000) = 1 ∧ clip1 (-3) = -1 ∧ clip1 (1/3) = 1/3 ∧ clipXR .ninf = .fin (-1) := by
+  decide +kernel
 example : ∃ sb cb sg cg : Rat, cb ^ 2 + sb ^ 2 = 1 ∧ cg ^ 2 + sg ^ 2 = 1 ∧ sb ≠ 0 ∧ sg ≠ 0 :=
   ⟨3/5, 4/5, 5/13, 12/13, by norm_num, by norm_num, by norm_num, by norm_num⟩
 -- the refusal theorem applied to a concrete outside start; a non-successive jump with non-zero draws
 example : bnJump [⟨0, 1⟩] [3/2] 10 [1/2] = .refuse :=
   (C12_outside_refuses (boxes := [⟨0, 1⟩]) (x := [3/2]) 0 rfl rfl (Or.inr (by decide +kernel)) 10 [1/2]).1
-example : ndJump? [false] [3] [1/2] = some [4] ∧ ∀ d ∈ [(1/2 : Rat)], d ≠ 0 := by decide +kernel
 example : bdJump? [⟨0, 5, false⟩, ⟨-3, 2, false⟩] [5, -3] 9 [1/2, -1/2, -7, 1/3] = some [4, -2] := by decide +kernel
 -- a complete oracle record (away from the pole) on which the solid-angle model returns a pair
 def okOracle : SAOracle :=
   { sinT0 := ⟨.fin 1, .fin 0, .fin (3/5)⟩, cosP0 := ⟨.fin 0, .fin 0, .fin 1⟩,
     sinP0 := ⟨.fin 0, .fin 0, .fin 0⟩, cosT0 := ⟨.fin 1, .fin 0, .fin (4/5)⟩,
-    expK := ⟨.fin 1, .fin 0, .fin 3⟩, logA := ⟨.fin (13/6), .fin 0, .fin (3/4)⟩,
-    acosW := ⟨.fin (3/4), .fin 0, .fin (7/10)⟩,
+    expm1 := ⟨.fin (-2), .fin 0, .fin (-4/5)⟩, log1p := ⟨.fin (-2/5), .fin 0, .fin (-1/2)⟩,
+    clipW := ⟨.fin (1/2), .fin 0, .fin (1/2)⟩, acosW := ⟨.fin (1/2), .fin 0, .fin (7/10)⟩,
     sinT1 := ⟨.fin (7/10), .fin 0, .fin (3/5)⟩, cosP1 := ⟨.fin 0, .fin 0, .fin 1⟩,
     sinP1 := ⟨.fin 0, .fin 0, .fin 0⟩, cosT1 := ⟨.fin (7/10), .fin 0, .fin (4/5)⟩,
     acosMz := ⟨.fin (4/5), .fin 0, .fin (13/20)⟩, sqrtR := ⟨.fin (9/25), .fin 0, .fin (3/5)⟩,
-    acosG := ⟨.fin 1, .fin 0, .fin 0⟩,
+    acosG := some ⟨.fin 1, .fin 0, .fin 0⟩,
     sinB := ⟨.fin (13/20), .fin 0, .fin (3/5)⟩, sinG := ⟨.fin 0, .fin 0, .fin 0⟩,
     cosB := ⟨.fin (13/20), .fin 0, .fin (4/5)⟩, cosG := ⟨.fin 0, .fin 0, .fin 1⟩,
     atan2 := ⟨.fin 0, .fin (24/25), .fin (-1/100)⟩, acosZ := ⟨.fin (7/25), .fin 0, .fin (13/10)⟩ }
-example : saJump ⟨3, 1/60, 60⟩ ⟨true, false, 1, 1/10⟩ 0 (-1/2) 0 (1/2) okOracle
+example : saJump ⟨3, 1/60, 60⟩ ⟨true, false, 1⟩ 0 (-1/2) 0 (1/2) okOracle
     = .ok (599/100) (-1/5) 0 := by decide +kernel
+-- a start exactly at the north pole: rxy = 0, no arccos call for γ, γ = 0, and a pair comes out;
+-- the float `1 + L/κ` is recorded a little above 1 and is clipped
+def poleOracle : SAOracle :=
+  { okOracle with
+    sinT0 := ⟨.fin 0, .fin 0, .fin 0⟩, cosT0 := ⟨.fin 0, .fin 0, .fin 1⟩,
+    log1p := ⟨.fin (-2/5), .fin 0, .fin 0⟩,
+    clipW := ⟨.fin 1, .fin 0, .fin 1⟩, acosW := ⟨.fin 1, .fin 0, .fin (7/10)⟩,
+    acosMz := ⟨.fin 1, .fin 0, .fin 0⟩, sqrtR := ⟨.fin 0, .fin 0, .fin 0⟩, acosG := none,
+    sinB := ⟨.fin 0, .fin 0, .fin 0⟩, cosB := ⟨.fin 0, .fin 0, .fin 1⟩,
+    atan2 := ⟨.fin 0, .fin (3/5), .fin 0⟩, acosZ := ⟨.fin (4/5), .fin 0, .fin (13/20)⟩ }
+example : saJump ⟨3, 1/60, 60⟩ ⟨false, false, 1⟩ 0 0 0 (1/2) poleOracle = .ok 0 (13/20) 0 := by
+  decide +kernel
+example : poleOracle.acosG = none ∧ (∀ s, saJump ⟨3, 1/60, 60⟩ ⟨false, false, 1⟩ 0 0 0 (1/2) poleOracle ≠ .desync s) := by
+  refine ⟨rfl, fun s => ?_⟩
+  rw [show saJump ⟨3, 1/60, 60⟩ ⟨false, false, 1⟩ 0 0 0 (1/2) poleOracle = .ok 0 (13/20) 0 by decide +kernel]
+  simp
 example : birthUniform ⟨-1, 3⟩ (1/4) = 0 := by decide +kernel
 example : birthLogNormal 0 = none ∧ birthLogNormal (1/2) = some (1/2) := by decide +kernel
 
